@@ -14,6 +14,8 @@ def keys_upto(alpha, n):
 
 
 def mk_key(k, form):
+    if not isinstance(k, str):  # explicit token list (mixed-type tokens)
+        return list(k) if form == "list" else tuple(k)
     if form == "str":
         return k
     if form == "list":
@@ -98,6 +100,9 @@ class Spec(hist.Spec):
         return n, fails
 
 
+MIXED = [[], ["a"], [1], ["a", 1], ["a", "b"], [1, "a"], [None], ["a", None], [1.5], ["a", 1.5]]
+
+
 def all_specs():
     q4 = keys_upto("ab", 4)
     v3 = [None, 1, 2]
@@ -108,6 +113,10 @@ def all_specs():
             Spec("seq-k3-v3-forms", keys_upto("ab", 3), v3, ["str", "list", "tuple"], q4),
             Spec("seq-k3-v3", keys_upto("ab", 3), v3, ["str"], q4),
             Spec("closure-abc-k2-v2", keys_upto("abc", 2)[:10], [None, 1], ["str"], keys_upto("abc", 3)),
+            # tokens of different, mutually unorderable types under the same node
+            Spec("seq-mixed-tokens", MIXED, [1, 2], ["list"], MIXED + [["a", 1, "b"], [2]]),
+            # keys far deeper than the interpreter's recursion limit
+            Spec("seq-deep-keys", ["a" * 1200, "a" * 1200 + "b", "a", ""], [1, 2], ["str"], ["a" * 1200, "a" * 1200 + "b", "a" * 1199, "a", ""]),
         ]
     }
 
@@ -137,14 +146,16 @@ def explore(chk):
     S = all_specs()
     quick = chk.tier == "quick"
     L = 3 if quick else 4
-    st = hist.closure(S["closure-k2-v3"], chk, "closure-k2-v3")
-    if not st["complete"]:
+    st = hist.closure(S["closure-k2-v3"], chk, "closure-k2-v3", max_states=200000)
+    if not st["complete"] and not chk.witnesses:
         raise core.Harness("closure did not complete: %r" % st)
     hist.sequences(S["seq-k3-v3-forms"], chk, "seq-k3-v3-forms", 2 if quick else 3)
     hist.sequences(S["seq-k3-v3"], chk, "seq-k3-v3", L)
+    hist.sequences(S["seq-mixed-tokens"], chk, "seq-mixed-tokens", 2 if quick else 3)
+    hist.sequences(S["seq-deep-keys"], chk, "seq-deep-keys", 2)
     if not quick:
         st = hist.closure(S["closure-abc-k2-v2"], chk, "closure-abc-k2-v2")
-        if not st["complete"]:
+        if not st["complete"] and not chk.witnesses:
             raise core.Harness("closure did not complete: %r" % st)
     chk.cov["bounds"] = {"closure": "complete", "L": L}
     chk.cov["distinct_nontrivial"] = chk.cov["states"]
